@@ -430,7 +430,47 @@ def _sub_plain(case, j, step, P):
     return sub
 
 
-def oracle(case, only=None):
+def _F(x):
+    return Fraction(float(x))
+
+
+def _py_check(it):
+    """the Python statement of a checker clause, in exact arithmetic on the same floats (cross-check of the
+    verified Lean checkers `checkSimplex` / `checkBetween` / `checkUncertainty` / `checkRange` / `checkTotalVariance`)"""
+    tol = _F(it["tol"])
+    k = it["k"]
+    if k == "simplex":
+        loc = [_F(x) for x in it["loc"]]
+        return len(loc) == it["c"] and all(-tol <= x for x in loc) and sum(loc) - 1 <= tol and 1 - sum(loc) <= tol
+    if k == "between":
+        vals = [_F(y) for w, y in zip(it["ws"], it["ys"]) if y is not None]
+        a = _F(it["a"])
+        return any(v - tol <= a for v in vals) and any(a <= v + tol for v in vals)
+    if k == "unc":
+        hi, u, a, e = (_F(it[x]) for x in ("hi", "u", "a", "e"))
+        return -tol <= u and u <= hi + tol and -tol <= a and -tol <= e and u - (a + e) <= tol and (a + e) - u <= tol
+    if k == "range":
+        hi, u = _F(it["hi"]), _F(it["u"])
+        return -tol <= u and u <= hi + tol
+    if k == "totvar":
+        v, a, e = (_F(it[x]) for x in ("v", "a", "e"))
+        return v - (a + e) <= tol and (a + e) - v <= tol
+    raise ValueError(k)
+
+
+def _item_wire(it):
+    out = {}
+    for key, v in it.items():
+        if key in ("k", "c"):
+            out[key] = v
+        elif isinstance(v, list):
+            out[key] = [None if x is None else rat(float(x)) for x in v]
+        else:
+            out[key] = rat(float(v))
+    return out
+
+
+def oracle(case, only=None, items_out=None):
     """the property on the real code's outputs -> list of (clause, detail)"""
     if not _valid(case):
         return []
@@ -440,6 +480,14 @@ def oracle(case, only=None):
 
     def want(clause):
         return only is None or only == clause
+
+    def emit(clause, item, detail):
+        """a clause decided by a verified checker: Python verdict here, Lean verdict through `items_out`"""
+        ok = _py_check(item)
+        if items_out is not None:
+            items_out.append((clause, detail, item, ok))
+        if not ok and not any(c == clause for c, _ in fails):
+            fails.append((clause, detail))
 
     base = call(case)
     if base[0] == "exc":
@@ -470,11 +518,13 @@ def oracle(case, only=None):
         d, mk = out["loc"]
         d, mk = d.reshape(-1), mk.reshape(-1)
         if agg != "mode":
+            wl = [1.0] * n if w is None else list(w)
             for j in range(len(d)):
-                vals = [m["data"][j] for m in case["members"] if not m["mask"][j]]
-                if not mk[j] and vals and not (min(vals) - TOL <= d[j] <= max(vals) + TOL):
-                    fails.append(("between", f"loc[{j}]={d[j]!r} outside [{min(vals)}, {max(vals)}]"))
-                    break
+                ys = [None if m["mask"][j] else m["data"][j] for m in case["members"]]
+                vals = [y for y in ys if y is not None]
+                if not mk[j] and vals:
+                    emit("between", {"k": "between", "tol": TOL, "ws": wl, "ys": ys, "a": d[j]},
+                         f"loc[{j}]={d[j]!r} outside [{min(vals)}, {max(vals)}]")
     # -- masked entries are ignored
     if case["masked"] and want("masked-ignored"):
         cells, step = _present_cells(case)
@@ -517,9 +567,8 @@ def oracle(case, only=None):
         c = case["shape"][-1]
         d, mk = d.reshape(-1, c), mk.reshape(-1, c)
         for r_ in range(len(d)):
-            if not mk[r_].any() and not ((d[r_] >= -TOL).all() and abs(d[r_].sum() - 1) <= 1e-9):
-                fails.append(("simplex", f"row {r_}: {d[r_].tolist()}"))
-                break
+            if not mk[r_].any():
+                emit("simplex", {"k": "simplex", "tol": 1e-9, "c": c, "loc": d[r_].tolist()}, f"row {r_}: {d[r_].tolist()}")
     # -- uncertainties in range, non-negative parts that add up
     if agg == "cat" and want("uncertainty-range"):
         c = case["shape"][-1]
@@ -536,15 +585,9 @@ def oracle(case, only=None):
             for j in range(len(u)):
                 if um[j] or am[j]:
                     continue
-                if not (-1e-9 <= u[j] <= hi + 1e-9):
-                    fails.append(("uncertainty-range", f"total[{j}]={u[j]!r} outside [0, {hi}]"))
-                elif a[j] < -1e-9 or e[j] < -1e-9:
-                    fails.append(("uncertainty-range", f"aleatoric[{j}]={a[j]!r} epistemic[{j}]={e[j]!r}"))
-                elif abs(u[j] - (a[j] + e[j])) > 1e-9:
-                    fails.append(("uncertainty-split", f"total[{j}]={u[j]!r} != {a[j]!r} + {e[j]!r}"))
-                else:
-                    continue
-                break
+                emit("uncertainty-range", {"k": "unc", "tol": 1e-9, "hi": hi, "u": u[j], "a": a[j], "e": e[j]},
+                     f"cell {j}: total={u[j]!r} (range [0, {hi}]), aleatoric={a[j]!r}, epistemic={e[j]!r}: out of range, "
+                     f"negative part or total != aleatoric + epistemic")
     if agg == "mode" and opts["with_uncertainty"] and want("mode-range"):
         full = call(case, opts={"with_uncertainty": True})
         if full[0] == "exc":
@@ -553,9 +596,9 @@ def oracle(case, only=None):
             u, um = full[1]["uncertainty"]
             u, um = u.reshape(-1), um.reshape(-1)
             for j in range(len(u)):
-                if not um[j] and not (-1e-9 <= u[j] <= 1 + 1e-9):
-                    fails.append(("mode-range", f"uncertainty[{j}]={u[j]!r} outside [0, 1]"))
-                    break
+                if not um[j]:
+                    emit("mode-range", {"k": "range", "tol": 1e-9, "hi": 1.0, "u": u[j]},
+                         f"uncertainty[{j}]={u[j]!r} outside [0, 1]")
     # -- normal members: mixture variance = aleatoric + epistemic variance, any weights
     if agg == "normal" and want("total-variance"):
         tot = call(case, opts={"decomposed_scale": False})
@@ -573,10 +616,9 @@ def oracle(case, only=None):
                 if sm[j] or am[j] or em[j]:
                     fails.append(("total-variance", f"cell {j}: masks differ total={sm[j]} alea={am[j]} epi={em[j]}"))
                     break
-                if not _close(s[j] ** 2, a[j] ** 2 + e[j] ** 2, 1e-10):
-                    fails.append(("total-variance", f"cell {j}: scale^2={s[j] ** 2!r} but aleatoric^2+epistemic^2="
-                                                    f"{a[j] ** 2 + e[j] ** 2!r}"))
-                    break
+                v2, a2, e2 = float(s[j]) ** 2, float(a[j]) ** 2, float(e[j]) ** 2
+                emit("total-variance", {"k": "totvar", "tol": 1e-10 * (1.0 + abs(a2 + e2)), "v": v2, "a": a2, "e": e2},
+                     f"cell {j}: scale^2={v2!r} but aleatoric^2+epistemic^2={a2 + e2!r}")
     return [f for f in fails if only is None or f[0] == only or f[0] == "raises"]
 
 
@@ -682,33 +724,47 @@ def _report(ck, case, fails):
 
 
 def _check_cases(ck, cases, verbose=False):
-    reals, reqs = [], []
+    reals, reqs, pyfails, items = [], [], [], []
     for case in cases:
         real = call(case)
         reals.append(real)
         reqs.append(lean_req(case, real))
+        its = []
+        pyfails.append(oracle(case, items_out=its))  # the property on the real outputs (Python side)
+        items.append(its)
+        reqs.append({"op": "check", "items": [_item_wire(it) for _, _, it, _ in its]})
     with ck.driver() as d:
         reps = d.ask_all(reqs)
-    for case, real, rep in zip(cases, reals, reps):
-        ck.case({k: case.get(k) for k in ("agg", "opts", "shape", "masked", "members", "weights", "history")},
+    for k, (case, real) in enumerate(zip(cases, reals)):
+        rep, chk = reps[2 * k], reps[2 * k + 1]["res"]
+        ck.case({k_: case.get(k_) for k_ in ("agg", "opts", "shape", "masked", "members", "weights", "history")},
                 nontrivial=_nontrivial(case))
         if case.get("history"):
             ck.count(f"history:earlier-calls={len(case['history'])}")
             ck.count("history:" + "+".join(sorted({"masked" if h["masked"] else "plain" for h in case["history"]}))
                      + "->" + ("masked" if case["masked"] else "plain"))
-        ck.count("agg:" + case["agg"] + ":" + ",".join(f"{k}={v}" for k, v in sorted(case["opts"].items())))
+        ck.count("agg:" + case["agg"] + ":" + ",".join(f"{k_}={v}" for k_, v in sorted(case["opts"].items())))
         ck.count("weights:" + case.get("wkind", _wclass(case["weights"])))
         ck.count("masked" if case["masked"] else "plain")
         ck.count(f"members={len(case['members'])}")
         ck.count(f"ndim={len(case['shape'])}")
         ck.count("outcome:" + (real[1] if real[0] == "exc" else "returns"))
+        ck.count("verified-checker-evaluations", len(chk))
         dis = compare_model(case, real, rep)
         if dis:
             ck.mismatch(case, dis)
-        fails = oracle(case)
+        # L3: the verified checkers' verdicts (Lean) decide their clauses; the Python statement is the cross-check
+        lean_fail = {}
+        for (clause, detail, it, py_ok), lean_ok in zip(items[k], chk):
+            if bool(lean_ok) != bool(py_ok):
+                ck.mismatch(case, f"verified checker ({clause}: {lean_ok}) and Python oracle ({py_ok}) disagree on {it}")
+            if not lean_ok:
+                lean_fail.setdefault(clause, detail)
+        checker_clauses = {c for c, _, _, _ in items[k]}
+        fails = [(c, dt) for c, dt in pyfails[k] if c not in checker_clauses] + list(lean_fail.items())
         if verbose:
             print("replay:", {"impl": real[0] if real[0] == "ok" else real, "model_vs_impl": dis or "agree",
-                              "oracle": fails or "holds"})
+                              "oracle": fails or "holds", "verified_checker_verdicts": chk})
         if fails:
             _report(ck, case, fails)
 
